@@ -41,6 +41,10 @@ _SCAN = ("i1.scan (composition): the same list generator; Go = RuleStorageScanne
 _DNS = ("i1.dnschain (composition): the same list generator (DNS-style lines) + one DNS request; Go = DNSEngine.MatchRequest; "
         "model = storage scan with the modelled NewRule -> DNS engine model with the modelled GetDNSBasicRule; spec = reference "
         "scan over the lines parsed one by one; answer = (network rule texts)|class of NetworkRule|(v4)|(v6)|matched")
+_COS = ("i1.coschain (composition): 1-3 lists given as BYTES (##/#@# rules of every shape among comments, hosts lines with ' ##', "
+        "network rules, invalid and mutated lines, padding, CRLF, IgnoreCosmetic on/off) + hostname + flags; Go = real RuleStorage + "
+        "CosmeticEngine.Match; model = storage scan with the modelled NewRule / NewCosmeticRule -> cosmetic lookup table; spec = reference "
+        "over the lines parsed one by one; answer = (generic selectors)|(specific selectors)")
 
 
 def _entry(prop, fams, text):
@@ -57,4 +61,5 @@ PROPS = {
     "C01": _entry("C01", [fam("i1.chain", 300, 5000, seeds=4)], _CHAIN),
     "C11": _entry("C11", [fam("i1.chain", 300, 5000, seeds=4), fam("i1.scan", 300, 5000, seeds=4)], _CHAIN + " || " + _SCAN),
     "C02": _entry("C02", [fam("i1.dnschain", 300, 5000, seeds=4)], _DNS),
+    "C15": _entry("C15", [fam("i1.coschain", 300, 5000, seeds=4)], _COS),
 }
